@@ -518,7 +518,9 @@ def run_zone(label, tz, iana, tier, seed, scratch_root, gap_rule):
         # ------------------------------------------------------------ the same history flattened in ANOTHER zone: the hash dates
         # copied into the packing list still denote the instants at which the digests were taken
         if readable:
-            other = "EST5EDT" if tz not in ("EST5EDT",) and "New_York" not in tz else "JST-9"
+            # ... a zone whose calendar day differs from the UTC day right now (the NAME of the packing list carries the UTC time)
+            other = "<-12>12" if time.gmtime().tm_hour < 12 else "<+14>-14"
+            f0 = time.gmtime()
             dest = os.path.join(scratch_root, re.sub(r"[^A-Za-z0-9]+", "_", label) + "_flat")
             os.makedirs(dest)
             fr = child(other, [{"op": "flatten", "root": root, "dest": dest}])["replies"][0]
@@ -526,6 +528,14 @@ def run_zone(label, tz, iana, tier, seed, scratch_root, gap_rule):
             if fr["outcome"] != ["exit", 0] or len(pls) != 1:
                 ev.disagree.append((dict(scen, flatten_TZ=other), "exit 0 and one packing list", [fr["outcome"], pls], "flatten of the fresh history did not succeed"))
             else:
+                f1 = time.gmtime()
+                mname = re.search(r"_(\d{4}-\d{2}-\d{2})_(\d{6})Z\.mhl$", os.path.basename(pls[0]))
+                ev.cases.append(((label, "flatten-name"), True, None))
+                ev.count("flatten.name")
+                days = {time.strftime("%Y-%m-%d", f0), time.strftime("%Y-%m-%d", f1)}
+                if mname is None or mname.group(1) not in days:
+                    ev.violate.append(("flatten-filename-not-utc", dict(scen, flatten_TZ=other, name=os.path.basename(pls[0])), sorted(days), os.path.basename(pls[0]),
+                                       "the name of the packing list does not carry the UTC date of its creation"))
                 pl = read_manifest_raw(os.path.join(dest, pls[0]))
                 src = {}
                 for rel, txt in man["hashdates"]:
